@@ -318,6 +318,10 @@ def mon_cleanup(case, run):
                 continue        # never attached to the machine (the attaching callback did not run)
             if st not in legal:
                 bad.append(('state.unregistered', 'model %s ends in %r' % (mi, st)))
+        names = getattr(run, 'final_names', None)
+        if names is not None and names != [['A', 'B', 'B_x', 'B_y', 'C'], ['A', 'B', 'x', 'y', 'C']]:
+            bad.append(('state.names_corrupted', 'after all triggers finished the machine lists its states as %r and the '
+                        'state objects answer to %r' % (names[0], names[1])))
     return bad
 
 
